@@ -684,7 +684,9 @@ remove_job_from_pattern		(vbi3_raw_decoder *	rd,
 		int8_t *end;
 
 		dst = pattern;
-		end = pattern + _VBI3_RAW_DECODER_MAX_WAYS;
+		/* The last way is the blank line counter (see
+		   decode_pattern()), it must stay where it is. */
+		end = pattern + _VBI3_RAW_DECODER_MAX_WAYS - 1;
 
 		/* Remove jobs with job_num, fill up pattern with 0.
 		   Jobs above job_num move down in rd->jobs. */
@@ -700,7 +702,7 @@ remove_job_from_pattern		(vbi3_raw_decoder *	rd,
 		while (dst < end)
 			*dst++ = 0;
 
-		pattern = end;
+		pattern = end + 1;
 	}
 }
 
